@@ -1,8 +1,8 @@
 (* C14 — property theorems.  Only statements, each closed by [exact], each followed by
    Print Assumptions. *)
 From Coq Require Import ZArith QArith List Bool.
-From Centro Require Import Model.Circle Model.Feret Model.HullFill Spec.MecSpec Spec.FeretSpec Spec.FeretLower Spec.FillSpec
-  Proofs.MecProofs Proofs.CircleProofs Proofs.FeretProofs Proofs.FeretLowerProofs Proofs.SweepProofs Proofs.FillProofs Proofs.FillEdgeProofs Proofs.FillModelProofs.
+From Centro Require Import Model.Circle Model.Feret Model.HullFill Spec.MecSpec Spec.ChrystalHyp Spec.FeretSpec Spec.FeretLower Spec.FillSpec
+  Proofs.MecProofs Proofs.CircleProofs Proofs.ChrystalFull Proofs.FeretProofs Proofs.FeretLowerProofs Proofs.SweepProofs Proofs.FillProofs Proofs.FillEdgeProofs Proofs.FillModelProofs.
 
 (* Full.  Soundness of the certificate checker that is run on the exact circle reconstructed from
    the implementation's output: the circle contains every pixel centre of S and no circle
@@ -34,17 +34,21 @@ Theorem C14_chrystal_lower_bound : forall h ny nx d rn,
 Proof. exact chrystal_lower_bound. Qed.
 Print Assumptions C14_chrystal_lower_bound.
 
-(* Partial: "the model's circle is the minimum enclosing circle of the hull points" is proved under
-   the premise that the circle encloses them.  Missing: that Chrystal's iteration as written always
-   terminates (within the model's fuel) in a circle that encloses every hull point — the progress
-   argument of the algorithm.  On every run the premise is checked on the implementation's own
-   output by mec_ok, for the object's full pixel set. *)
-Theorem C14_chrystal_reaches_certificate_partial : forall h ny nx d rn,
-  chrystal h = CCircle ny nx d rn ->
-  Encloses h (inject_Z ny / inject_Z d) (inject_Z nx / inject_Z d) (inject_Z rn / inject_Z (d * d)) ->
-  MEC h (inject_Z ny / inject_Z d) (inject_Z nx / inject_Z d) (inject_Z rn / inject_Z (d * d)).
-Proof. exact chrystal_mec. Qed.
-Print Assumptions C14_chrystal_reaches_certificate_partial.
+(* Full.  Chrystal's iteration as written (start on hull points 0 and 1, vertex of smallest angle,
+   cases 1 / 1a / 2, replacement of the obtuse end point) terminates within the model's iteration
+   bound and returns THE minimum enclosing circle, for every point list in general position (points
+   distinct, no three collinear: strict hull vertices) whose first two points span a supporting line
+   (adjacent hull vertices) - in any orientation and from any starting vertex.  Invariant: the circle
+   through S0, S1 and the smallest-angle vertex encloses all points (pencil-of-circles form of the
+   inscribed-angle theorem, over Z); measure: the chord S0 S1 strictly lengthens at every
+   replacement.  The boolean hypothesis is evaluated on every run's hull lists. *)
+Theorem C14_chrystal_reaches_certificate : forall h,
+  chrystal_hyp_ok h = true ->
+  exists ny nx d rn,
+    chrystal h = CCircle ny nx d rn /\
+    MEC h (inject_Z ny / inject_Z d) (inject_Z nx / inject_Z d) (inject_Z rn / inject_Z (d * d)).
+Proof. exact chrystal_reaches_certificate. Qed.
+Print Assumptions C14_chrystal_reaches_certificate.
 
 (* Full.  The brute-force maximum Feret diameter (squared) that the implementation's value is
    compared with is the largest squared distance between two pixels of the object. *)
